@@ -59,6 +59,8 @@ impl<T> ObservableState<T> {
         observed_version: &mut u64,
         cx: &Context<'_>,
     ) -> Poll<Option<()>> {
+        #[cfg(eyeball_verif)]
+        crate::verif::point("poll:before_meta_lock");
         let mut metadata = self.metadata.write().unwrap();
 
         if metadata.version == 0 {
@@ -68,11 +70,15 @@ impl<T> ObservableState<T> {
             Poll::Ready(Some(()))
         } else {
             metadata.wakers.push(cx.waker().clone());
+            #[cfg(eyeball_verif)]
+            crate::verif::point("poll:registered");
             Poll::Pending
         }
     }
 
     pub(crate) fn set(&mut self, value: T) -> T {
+        #[cfg(eyeball_verif)]
+        crate::verif::point("set:locked");
         let result = mem::replace(&mut self.value, value);
         self.incr_version_and_wake();
         result
@@ -113,6 +119,8 @@ impl<T> ObservableState<T> {
 
     /// "Close" the state – indicate that no further updates will happen.
     pub(crate) fn close(&self) {
+        #[cfg(eyeball_verif)]
+        crate::verif::point("close:before_meta_lock");
         let mut metadata = self.metadata.write().unwrap();
         metadata.version = 0;
         // Clear the backing buffer for the wakers, no new ones will be added.
@@ -122,6 +130,8 @@ impl<T> ObservableState<T> {
     fn incr_version_and_wake(&mut self) {
         let metadata = self.metadata.get_mut().unwrap();
         metadata.version += 1;
+        #[cfg(eyeball_verif)]
+        crate::verif::point("set:before_wake");
         wake(metadata.wakers.drain(..));
     }
 }
